@@ -25,6 +25,7 @@ from typing import Any
 
 from happysimulator.core.entity import Entity
 from happysimulator.core.event import Event
+from happysimulator.core.sim_future import SimFuture
 
 logger = logging.getLogger(__name__)
 
@@ -161,20 +162,17 @@ class Semaphore(Entity):
         self._contentions += 1
         enqueue_time = self._clock.now.nanoseconds if self._clock else 0
 
-        acquired = [False]
-
-        def on_wake():
-            acquired[0] = True
-
-        waiter = _Waiter(count=count, callback=on_wake, enqueue_time_ns=enqueue_time)
+        # Park on a future that release() resolves (no events while waiting)
+        granted = SimFuture()
+        waiter = _Waiter(count=count, callback=granted.resolve, enqueue_time_ns=enqueue_time)
         self._waiters.append(waiter)
 
         # Track peak waiters
         if len(self._waiters) > self._peak_waiters:
             self._peak_waiters = len(self._waiters)
 
-        while not acquired[0]:
-            yield 0.0
+        while not granted.is_resolved:
+            yield granted
 
         self._acquisitions += count
 
